@@ -8,6 +8,7 @@
 -/
 import Mrm.Proofs.SerializeP
 import Mrm.Proofs.LexerP
+import Mrm.Proofs.RoIdP
 
 namespace Mrm
 
@@ -57,6 +58,12 @@ theorem C14_parse_serialize (t : Xml) (h : wfSer t = true) : parseXml (serialize
 /-- C14: serialise ∘ read ∘ serialise = serialise -/
 theorem C14_idempotent (t t' : Xml) (h : wfSer t = true) (hp : parseXml (serialize t) = some t') :
     serialize t' = serialize t := serialize_idempotent t t' h hp
+
+/-- C14 (envelope): a message addressed to the running order — the only writers of the roID are
+    roReplace and roMetadataReplace, which must then carry that ID — keeps the running-order ID -/
+theorem C14_roid_step (i : MergeInput) (h : DomC03 i = true) (hid : hasRoId i.d = true) (hs : sameRo i = true) :
+    roIdText (addK i.k i.d i.m).ro = roIdText i.d ∧ hasRoId (addK i.k i.d i.m).ro = true :=
+  roid_step i h hid hs
 
 /-- C07 (round trip): a completed running order written out and read back (token level) is the same
     document, hence still completed and still classified as a RunningOrder -/
